@@ -45,7 +45,8 @@ Record lan := mkLan {
 Inductive event :=
 | EvConnect (cid : nat) (v3 : bool)
 | EvHs (cid : nat) (pid : N) (good : bool)             (* handshake request written (good = carries the device's token) *)
-| EvData (cid : nat) (pid : N) (kid : nat) (frame : N)  (* data request written under session key kid (V2: kid = 0) *)
+| EvData (cid : nat) (pid : N) (kid : nat) (frame : N)  (* V3 data request written under session key kid *)
+| EvData2 (cid : nat) (frame : N)                      (* V2 data request (no counter, no session key) *)
 | EvAuthOk (cid : nat) (kid : nat)                     (* the client accepted handshake reply number kid *)
 | EvClose (cid : nat).
 
@@ -143,30 +144,46 @@ Definition schedule (items : list (N * pkt)) (l : list (N * pkt)) : list (N * pk
 
 Inductive wkind := WHs (good : bool) | WData (frame : N).
 
-(* write(): raises ProtocolError on a closing transport (and, V3 data, without a session key); otherwise the packet goes
-   out, the counter advances with the 12-bit mask, and the peer reacts *)
-Definition proto_write (k : wkind) : M unit :=
-  dom c <- the_conn;
-  dom w <- get;
+(* write(): a V2 protocol object has no handshake (TypeError); V3 data without a session key and any write on a closing
+   transport raise ProtocolError; otherwise the packet goes out, the counter advances with the 12-bit mask, and the
+   peer reacts *)
+Definition write_refused (k : wkind) (c : conn) : option exn :=
   match k, c_v3 c, c_key c with
-  | WData _, true, None => raise EProtocol
-  | _, _, _ =>
-    if c_closing c then raise EProtocol else
-    let ev := match k with
-              | WHs good => EvHs (c_id c) (c_pid c) good
-              | WData f => EvData (c_id c) (c_pid c) (match c_key c with Some x => x | None => O end) f
-              end in
-    let is_hs := match k with WHs _ => true | WData _ => false end in
-    let r := hd [] (if is_hs then w_hsr w else w_replies w) in
-    let pk0 := if c_v3 c then c_peerkey c else Some O in
-    let '(sched, pk, kid') := resolve (w_now w) (w_nkid w) pk0 r in
-    let c' := mkConn (c_id c) (c_v3 c) (c_closing c)
-                     (if c_v3 c then N.land (c_pid c + 1) PACKET_ID_MASK else c_pid c)
-                     (c_key c) (c_lexp c) (c_q c) (schedule sched (c_in c)) (if c_v3 c then pk else c_peerkey c) in
-    put (mkWorld (mkLan (Some c') (l_v3 (w_lan w)) (l_creds (w_lan w)) (l_cexp (w_lan w)) (l_maxlife (w_lan w)))
-                 (w_now w) (w_conns w) (if is_hs then tl (w_hsr w) else w_hsr w) (if is_hs then w_replies w else tl (w_replies w))
-                 (w_ncid w) kid' (w_log w ++ [ev]))
+  | WHs _, false, _ => Some EType
+  | WData _, true, None => Some EProtocol
+  | _, _, _ => if c_closing c then Some EProtocol else None
   end.
+
+Definition write_event (k : wkind) (c : conn) : event :=
+  match k with
+  | WHs good => EvHs (c_id c) (c_pid c) good
+  | WData f => if c_v3 c then EvData (c_id c) (c_pid c) (match c_key c with Some x => x | None => O end) f
+               else EvData2 (c_id c) f
+  end.
+
+Definition write_world (w : world) (c : conn) (k : wkind) : world :=
+  let is_hs := match k with WHs _ => true | WData _ => false end in
+  let r := hd [] (if is_hs then w_hsr w else w_replies w) in
+  let pk0 := if c_v3 c then c_peerkey c else Some O in
+  let res := resolve (w_now w) (w_nkid w) pk0 r in
+  let c' := mkConn (c_id c) (c_v3 c) (c_closing c)
+                   (if c_v3 c then N.land (c_pid c + 1) PACKET_ID_MASK else c_pid c)
+                   (c_key c) (c_lexp c) (c_q c) (schedule (fst (fst res)) (c_in c))
+                   (if c_v3 c then snd (fst res) else c_peerkey c) in
+  mkWorld (mkLan (Some c') (l_v3 (w_lan w)) (l_creds (w_lan w)) (l_cexp (w_lan w)) (l_maxlife (w_lan w)))
+          (w_now w) (w_conns w) (if is_hs then tl (w_hsr w) else w_hsr w) (if is_hs then w_replies w else tl (w_replies w))
+          (w_ncid w) (snd res) (w_log w ++ [write_event k c]).
+
+Definition proto_write (k : wkind) : M unit :=
+  fun w =>
+    match l_proto (w_lan w) with
+    | None => (Err EAssert, w)
+    | Some c =>
+      match write_refused k c with
+      | Some e => (Err e, w)
+      | None => (Ok tt, write_world w c k)
+      end
+    end.
 
 (* _read_queue(timeout): timeout = 0 -> get_nowait; otherwise wait at most read_timeout ms *)
 Definition READ_TIMEOUT : N := 2000.
@@ -224,6 +241,18 @@ Definition flush : M unit :=
 
 Definition AUTH_EXP_MS : N := AUTHENTICATION_EXPIRATION_S * 1000.
 
+(* the handshake succeeded: store the local key with its 12 h expiry *)
+Definition accept_key (kid : nat) : M unit :=
+  fun w =>
+    match l_proto (w_lan w) with
+    | None => (Err EAssert, w)
+    | Some c =>
+      let c' := mkConn (c_id c) (c_v3 c) (c_closing c) (c_pid c) (Some kid) (Some (w_now w + AUTH_EXP_MS)) (c_q c) (c_in c) (c_peerkey c) in
+      let l := w_lan w in
+      (Ok tt, mkWorld (mkLan (Some c') (l_v3 l) (l_creds l) (l_cexp l) (l_maxlife l)) (w_now w) (w_conns w) (w_hsr w) (w_replies w)
+                      (w_ncid w) (w_nkid w) (w_log w ++ [EvAuthOk (c_id c) kid]))
+    end.
+
 (* _LanProtocolV3.authenticate(token, key) *)
 Definition proto_authenticate (creds : option bool) : M unit :=
   match creds with
@@ -233,11 +262,7 @@ Definition proto_authenticate (creds : option bool) : M unit :=
     dom p <- mcatch (proto_write (WHs good) ;; read_queue true) [EProtocol] (fun _ => raise EAuth);
     match as_hs good p with
     | Err e => raise e
-    | Ok kid =>
-      dom w <- get;
-      dom c <- the_conn;
-      set_conn (fun c => mkConn (c_id c) (c_v3 c) (c_closing c) (c_pid c) (Some kid) (Some (w_now w + AUTH_EXP_MS)) (c_q c) (c_in c) (c_peerkey c)) ;;
-      log (EvAuthOk (c_id c) kid)
+    | Ok kid => accept_key kid
     end
   end.
 
@@ -350,7 +375,10 @@ Inductive op :=
 
 Inductive outcome := OutFrames (l : list N) | OutUnit | OutErr (e : exn).
 
-Definition run_op (o : op) : world -> outcome * world :=
+(* between two operations the event loop keeps running: everything that has arrived by now is delivered *)
+Definition settle (w : world) : world := snd (set_conn (conn_deliver (w_now w + 1)) w).
+
+Definition run_op_raw (o : op) : world -> outcome * world :=
   fun w =>
   match o with
   | OSend f r => match lan_send f r w with (Ok l, w') => (OutFrames l, w') | (Err e, w') => (OutErr e, w') end
@@ -360,6 +388,9 @@ Definition run_op (o : op) : world -> outcome * world :=
   | OTick ms => match advance_to (w_now w + ms) w with (_, w') => (OutUnit, w') end
   | OSetLife ms => match set_lan (fun l => mkLan (l_proto l) (l_v3 l) (l_creds l) (l_cexp l) ms) w with (_, w') => (OutUnit, w') end
   end.
+
+Definition run_op (o : op) (w : world) : outcome * world :=
+  let '(r, w') := run_op_raw o w in (r, settle w').
 
 Fixpoint run_ops (os : list op) (w : world) : list outcome * world :=
   match os with
